@@ -131,6 +131,8 @@ package generator
 //@   ensures err == nil && result1 == nil ==> result0 == nil
 //@   ensures err == nil && result1 != nil ==> result1.Code != nil
 //@   at call g.lookup.Get#1 assert !has(g.extend.Exact, signature)
+// C01 (F10): a generated method that is called without having been created here remembers its caller
+//@   at@C01 call g.CallMethod#2 assert len(genMethod.Callers) > 0 && genMethod.Callers[len(genMethod.Callers)-1] == ctx.IndexID
 
 // C07: a fallible custom function is emitted as `name, err := call; if err != nil { <ReturnError statement> }`
 //@ func generator.CallMethod
@@ -147,7 +149,10 @@ package generator
 // the emitted return statement: the target variable first (unless update), wrap(err) last; goverter refuses
 // (ok == false) only when the current method does not return an error itself
 //@ func generator.ReturnError
-//@   props C07
+//@   props C07 C01
+// C01 (F10): when a method gains an error result its signature changes; every method recorded as calling it is
+// marked dirty (generated again), not only the methods on the path it was created through
+//@   loop@C01 2 invariant forall j int :: 0 <= j && j < idx ==> g.lookup.ByID(check.Callers[j]).Dirty
 //@   ensures !result1 ==> !old(ctx.Conf.ReturnError) && result0 == nil
 //@   at call jen.Return#* assert arg0[len(arg0)-1] == jen.Code(g.wrap(ctx, errPath, id)) && len(arg0) == ite(current.UpdateTarget, 1, 2)
 //@           && (!current.UpdateTarget ==> arg0[0] == jen.Code(ctx.TargetVar))
